@@ -54,7 +54,7 @@ var plainNames = []string{"a", "b", "c", "x", "y", "name", "ts", "user_id", "cnt
 var oddNames = []string{"`my col`", "`a``b`", "`x'y`", "`sel\"ect`", "`--`", "`/*`", "`;`", "`\\`", "where", "count", "by2", "let", "kind", "on", "asc", "nulls", "with", "$x", "`é`", "`$left`"}
 var unknownFuncs = []string{"foo", "lower", "startswith", "sum", "min", "max", "avg", "dcount", "f_2", "abs"}
 var stringLits = []string{`'a'`, `"b"`, `''`, `'it\'s'`, `"say \"hi\""`, `'a\nb'`, `'tab\there'`, `'back\\slash'`, `'C:\\'`, `"A:\\"`,`'--'`, `'/*'`, `';'`, `'"'`, `"'"`, "'`'", `'é'`, `'日本'`, `'%'`, `'x;y'`}
-var numberLits = []string{"0", "1", "2", "42", "007", "3.14", ".5", "1.", "1e3", "1E-2", "0x1F", "0XaB", "0.0", "10", "100000000000"}
+var numberLits = []string{"0", "1", "2", "42", "007", "3.14", ".5", "1.", "1e3", "1E-2", "0x1F", "0XaB", "0.0", "10", "100000000000", "1e309", "1E+400", "1e-400", "0.1234567890123456789", "9007199254740993.0", "123456789012345678901234567890.5", "1.0000000000000000001", "2.50", "18446744073709551616"}
 
 func pick[T any](xs []T) T { return xs[rng.Intn(len(xs))] }
 
